@@ -153,8 +153,27 @@ pub fn gen(tier: &str, seed: u64, outdir: &str) {
         let terms_e: Vec<Tm> = ops.iter().map(|(kind, a, b)| match kind { 0 => app("KFit", vec![fl(a), fl(b), Tm::Raw("NoCall".into())]), 1 => app("KPredict", vec![fl(a)]), _ => app("KSet", vec![fl(a)]) }).collect();
         cs.push(app("CSeqE", vec![Tm::Nat(deg as u64), Tm::L(terms_e), outcome_list(&res)]), if res.is_ok() { "e2e-program/value" } else { "e2e-program/panic" }, nops >= 2 && nfit >= 1);
     }
+    // 6. coverage audit: the abscissa families and response scales the failure search was widened to (own generator: the cases above are unchanged)
+    {
+        let mut r = Rng::new(seed ^ 0xC14_A0D1);
+        let mut turn = 0usize;
+        for k in 1..=7usize { for fam in 5..NFAM { for dn in (if thorough { vec![0usize, 1, 4, 9, 30, 97] } else { vec![0usize, 6] }) {
+            turn += 1;
+            let (noise, e) = SCALES[turn % SCALES.len()];
+            let (x, fname) = abscissae2(&mut r, fam, k + dn, k);
+            let (y, _) = responses2(&mut r, &x, k, fam % NFAM == 9 && noise == 0.0 && e == 0, noise, e);
+            push_fit(&mut cs, k, &x, &y, &format!("fit/{}", fname));
+        }}}
+        // every response scale once more on a mid-size problem of each of the original families
+        for (i, &(noise, e)) in SCALES.iter().enumerate() {
+            let k = 1 + (i * 3) % 7; let n = k + 10 + i;
+            let (x, _) = abscissae(&mut r, i, n, k);
+            let (y, _) = responses2(&mut r, &x, k, false, noise, e);
+            push_fit(&mut cs, k, &x, &y, "fit/extreme-scale");
+        }
+    }
     cs.write(outdir, 60,
-             "vandermonde over a box of (length, order) with special values and orders to 40; predict for every coefficient length 0..9 with special values; fit for degrees 0..6 x {uniform, clustered, Chebyshev, quarter-integer, integer} abscissae in [-2,2] x every n from degree+1 upward (all residues), random n to 120 (quick) / 300 (thorough), n to 2000, responses = polynomial + noise of scale 0..1e4 and exact-integer cases; a degenerate/malformed stream (n < k, repeated abscissae, special values, k = 0, length mismatch, empty data); programs new(deg) + fits/predicts/coef assignments. Each fit case carries the recorded call of the crate's invert_matrix; every fit and every program is ALSO checked end to end (tags e2e-*: no record, the inner solve computed by C01's executable model of invert_matrix inside Coq). Non-trivial = fit with n >= 3 and non-constant x and y; predict with >= 2 coefficients; vandermonde of order >= 3; programs with >= 2 steps incl. a fit; distinct by hash of the case term");
+             "vandermonde over a box of (length, order) with special values and orders to 40; predict for every coefficient length 0..9 with special values; fit for degrees 0..6 x {uniform, clustered, Chebyshev, quarter-integer, integer} abscissae in [-2,2] x every n from degree+1 upward (all residues), random n to 120 (quick) / 300 (thorough), n to 2000, responses = polynomial + noise of scale 0..1e4 and exact-integer cases; degrees 0..6 x {equispaced with both end points, exactly degree+1 distinct values with repeats, sub-interval, near-duplicate abscissae (1-2 ulp apart), signed zeros} x n = degree+1 and larger with noise from 1e-15 to 1e280 and responses scaled by 2^900 / 2^-900 / 2^-1000; a degenerate/malformed stream (n < k, repeated abscissae, special values, k = 0, length mismatch, empty data); programs new(deg) + fits/predicts/coef assignments. Each fit case carries the recorded call of the crate's invert_matrix; every fit and every program is ALSO checked end to end (tags e2e-*: no record, the inner solve computed by C01's executable model of invert_matrix inside Coq). Non-trivial = fit with n >= 3 and non-constant x and y; predict with >= 2 coefficients; vandermonde of order >= 3; programs with >= 2 steps incl. a fit; distinct by hash of the case term");
 }
 
 // ---------------------------------------------------------------------------------------------
@@ -224,12 +243,190 @@ fn reference(k: usize, x: &[f64], y: &[f64]) -> Option<Reference> {
 
 fn desc(k: usize, x: &[f64], y: &[f64]) -> String { format!("degree={} x={} y={}", k as i64 - 1, json_floats(x), json_floats(y)) }
 
+// ---------------------------------------------------------------------------------------------
+// abscissa families added by the coverage audit (all inside [-2, 2], the property's range)
+/// equally spaced grid with both end points -2 and 2 exactly (n = 1: one random point)
+fn equispaced_x(r: &mut Rng, n: usize) -> Vec<f64> {
+    if n == 1 { return vec![r.uniform(-2.0, 2.0)]; }
+    (0..n).map(|i| if i + 1 == n { 2.0 } else { -2.0 + 4.0 * i as f64 / (n - 1) as f64 }).collect()
+}
+/// exactly k distinct values (the boundary of "at least degree+1 distinct abscissae"), every further point a repeat
+fn repeated_x(r: &mut Rng, n: usize, k: usize) -> Vec<f64> {
+    let mut vals: Vec<f64> = vec![];
+    while vals.len() < k { let v = if r.coin(0.5) { r.range(-8, 8) as f64 / 4.0 } else { r.uniform(-2.0, 2.0) }; if !vals.iter().any(|u| *u == v) { vals.push(v); } }
+    (0..n).map(|i| if i < k { vals[i] } else { *r.pick(&vals) }).collect()
+}
+/// uniform on a random sub-interval [a, b] of [-2, 2] of width >= 0.5 (one-sided and off-centre data)
+fn subinterval_x(r: &mut Rng, n: usize) -> Vec<f64> {
+    let a = r.uniform(-2.0, 1.5); let b = (a + r.uniform(0.5, 4.0)).min(2.0);
+    (0..n).map(|_| r.uniform(a, b)).collect()
+}
+/// k+2 well separated base points; the other points are copies moved by 0, 1, 2 ulp or a relative 1e-13 / 1e-10
+fn near_duplicate_x(r: &mut Rng, n: usize, k: usize) -> Vec<f64> {
+    let m = k + 2;
+    let base: Vec<f64> = (0..m).map(|i| -1.9 + 3.8 * (i as f64 + 0.8 * r.unit()) / m as f64).collect();
+    (0..n).map(|i| { let b = base[i % m]; let d = *r.pick(&[0.0, 1.0, -1.0, 2.0, -2.0, 450.0, -450000.0]); (b * (1.0 + d * f64::EPSILON)).clamp(-2.0, 2.0) }).collect()
+}
+/// integers / quarter integers with every zero drawn as +0 or -0
+fn signed_zero_x(r: &mut Rng, n: usize, k: usize) -> Vec<f64> {
+    let v = if k <= 5 { integer_x(r, n) } else { quarter_x(r, n) };
+    v.into_iter().enumerate().map(|(i, t)| if t == 0.0 && (i % 2 == 0 || r.coin(0.5)) { -0.0 } else { t }).collect()
+}
+const NFAM: usize = 10;
+fn abscissae2(r: &mut Rng, fam: usize, n: usize, k: usize) -> (Vec<f64>, &'static str) {
+    match fam % NFAM {
+        5 => (equispaced_x(r, n), "equispaced"),
+        6 => (repeated_x(r, n, k), "exactly-k-distinct"),
+        7 => (subinterval_x(r, n), "subinterval"),
+        8 => (near_duplicate_x(r, n, k), "near-duplicates"),
+        9 => (signed_zero_x(r, n, k), "signed-zero-integer"),
+        f => abscissae(r, f, n, k),
+    }
+}
+/// (noise scale, binary exponent e of the response scale): y = 2^e (polynomial + noise).  "Noise of any scale": from far below the
+/// rounding of the polynomial part to far above it, and responses as a whole near both ends of the binary64 range (no intermediate of a
+/// normal-equations solve with cond below the oracle's limit can overflow below 1e290).
+const SCALES: [(f64, i32); 16] = [(0.0, 0), (1e-15, 0), (1e-12, 0), (1e-9, 0), (1e-3, 0), (0.1, 0), (1.0, 0), (10.0, 0), (1e4, 0), (1e8, 0), (1e100, 0), (1e280, 0),
+                                  (1.0, 900), (1.0, -900), (1e-3, -1000), (0.0, -1000)];
+fn pow2(e: i32) -> f64 { f64::from_bits(((e.clamp(-1022, 1023) + 1023) as u64) << 52) }
+fn responses2(r: &mut Rng, x: &[f64], k: usize, integer: bool, noise: f64, e: i32) -> (Vec<f64>, Vec<f64>) {
+    let c0: Vec<f64> = (0..k).map(|_| if integer { r.small_int(5) } else { r.uniform(-3.0, 3.0) }).collect();
+    let s = pow2(e);
+    let y = x.iter().map(|&v| s * (poly_at(&c0, v) + if noise == 0.0 { 0.0 } else { noise * r.normal() })).collect();
+    (y, c0)
+}
+
+/// what the failure search reached, per (abscissa family, number of coefficients); printed when C14_COVERAGE is set
+#[derive(Default)]
+struct Cov { cells: std::collections::BTreeMap<(String, usize), [f64; 6]> }
+impl Cov {
+    fn cell(&mut self, f: &str, k: usize) -> &mut [f64; 6] { self.cells.entry((f.to_string(), k)).or_insert([0.0; 6]) }
+    fn print(&self) {
+        eprintln!("{:<22} {:>2} {:>7} {:>9} {:>9} {:>10} {:>6} {:>10}", "family", "k", "checked", "ill-cond", "<k dist.", "max cond", "max n", "max |y|");
+        for ((f, k), c) in &self.cells { eprintln!("{:<22} {:>2} {:>7} {:>9} {:>9} {:>10.2e} {:>6} {:>10.1e}", f, k, c[0], c[1], c[2], c[3], c[4], c[5]); }
+    }
+}
+
+struct Search { out: Vec<Finding>, tried: u64, cov: Cov }
+
+/// The property's clauses on one data set inside the quantifier (skipped when there are fewer than k distinct abscissae or when the
+/// double-double reference says the normal equations are too ill-conditioned for any claim).
+/// `c0` = the generating coefficients when the data are noiseless; `exact` = they are small integers on a grid where every power is exact.
+/// `refit` = family of a first, different data set after which the same regressor is fitted again.
+#[allow(clippy::too_many_arguments)]
+fn check_fit(s: &mut Search, r: &mut Rng, k: usize, x: &[f64], y: &[f64], fname: &str, c0: Option<&[f64]>, exact: bool, refit: Option<usize>) {
+    let n = x.len();
+    let input = desc(k, x, y);
+    crumb(&input);
+    let got = catch(|| { let mut p = PolynomialRegressor::new(k - 1); p.fit(x, y); let pred = p.predict(x); (p.coef.clone(), pred) });
+    s.tried += 1;
+    let mut distinct: Vec<u64> = x.iter().map(|v| (v + 0.0).to_bits()).collect(); distinct.sort(); distinct.dedup();
+    if distinct.len() < k { s.cov.cell(fname, k)[2] += 1.0; return; }
+    // the clauses are invariant under y -> y / 2^e: responses near the ends of the binary64 range are compared after an exact rescaling,
+    // so that the double-double reference (whose splitting overflows above 1e300) and the absolute floors below stay meaningful
+    let ymax = y.iter().fold(0.0f64, |m, v| m.max(v.abs()));
+    let sc = if ymax.is_finite() && ymax > 0.0 && (ymax > pow2(200) || ymax < pow2(-200)) { pow2(ymax.log2().floor() as i32) } else { 1.0 };
+    let z: Vec<f64> = y.iter().map(|v| v / sc).collect();
+    let rf = match reference(k, x, &z) { Some(rf) => rf, None => { s.cov.cell(fname, k)[1] += 1.0; return; } };
+    { let c = s.cov.cell(fname, k); c[0] += 1.0; c[3] = c[3].max(rf.kappa); c[4] = c[4].max(n as f64); c[5] = c[5].max(ymax); }
+    let out = &mut s.out;
+    match &got {
+        Err(e) => out.push(Finding { class: "fit:valid-input-panics".into(), what: format!("fit panicked on {} points with {} distinct abscissae ({} family, cond(V^T V) ~ {:e}): {}", n, distinct.len(), fname, rf.kappa, e), input: input.clone() }),
+        Ok((c, _)) if c.len() != k => out.push(Finding { class: "fit:wrong-coefficient-count".into(), what: format!("fit returned {} coefficients for degree {}", c.len(), k - 1), input: input.clone() }),
+        Ok((c, pred)) => {
+            let cd: Vec<DD> = c.iter().map(|v| DD::of(*v / sc)).collect();
+            // (a) coefficients against the double-double least-squares solution
+            let err = (0..k).map(|j| cd[j].sub(rf.cref[j]).abs()).fold(0.0, f64::max);
+            if !(err <= rf.tol_c) {
+                out.push(Finding { class: "fit:coefficients-not-least-squares".into(), what: format!("fit returned {:?}; the least-squares coefficients are {:?} x {:e} (max deviation {:e}, tolerance from cond(V^T V)={:e} is {:e}, both in units of {:e})", c, rf.cref.iter().map(|v| v.val()).collect::<Vec<_>>(), sc, err, rf.kappa, rf.tol_c, sc), input: input.clone() });
+            }
+            // (b) the residual is orthogonal to every power of x up to the degree
+            let res: Vec<DD> = x.iter().zip(&z).map(|(xi, yi)| DD::of(*yi).sub(dd_poly(&cd, *xi))).collect();
+            let tol_o = rf.gnorm * rf.tol_c * 1.0001 + 1e-300;
+            for j in 0..k {
+                let mut t = DD::of(0.0); for (xi, ri) in x.iter().zip(&res) { t = t.add(dd_pow(*xi, j).mul(*ri)); }
+                if !(t.abs() <= tol_o) { out.push(Finding { class: "fit:residual-not-orthogonal".into(), what: format!("sum_i x_i^{} r_i = {:e} x {:e} for the fitted coefficients {:?} (tolerance {:e})", j, t.val(), sc, c, tol_o), input: input.clone() }); break; }
+            }
+            // (c) no perturbation of a coefficient lowers the residual sum of squares
+            let rss0 = dd_rss(&cd, x, &z);
+            'pert: for j in 0..k { for sgn in [-1.0, 1.0] {
+                let h = sgn * 1e-3 * (1.0 + cd[j].abs());
+                let mut c2 = cd.clone(); c2[j] = c2[j].add(DD::of(h));
+                let d = dd_rss(&c2, x, &z).sub(rss0).val();
+                if !(d >= -2.0 * h.abs() * tol_o - 1e-28 * rss0.abs()) { out.push(Finding { class: "fit:perturbation-lowers-rss".into(), what: format!("rss(c + {:e} e_{}) - rss(c) = {:e} < 0 for the fitted c = {:?} (responses in units of {:e})", h, j, d, c, sc), input: input.clone() }); break 'pert; }
+            }}
+            // (d) exact-integer data generated by a polynomial of that degree are reproduced
+            if let (Some(c0), true, true) = (c0, exact, sc == 1.0) {
+                let e0 = (0..k).map(|j| (c[j] - c0[j]).abs()).fold(0.0, f64::max);
+                if !(e0 <= rf.tol_c) { out.push(Finding { class: "fit:polynomial-not-reproduced".into(), what: format!("data generated exactly by {:?} were fitted as {:?} (deviation {:e}, tolerance {:e})", c0, c, e0, rf.tol_c), input: input.clone() }); }
+            }
+            // (e) predict on the fitted regressor is the fitted polynomial at each abscissa, and noiseless data of that degree are
+            //     reproduced BY THE PREDICTIONS: |pred_i - y_i| <= (deviation the conditioning grants) + (2-norm of the rounding of the data)
+            if pred.len() != n { out.push(Finding { class: "predict:wrong-length".into(), what: format!("predict after fit returned {} values for {} points", pred.len(), n), input: input.clone() }); }
+            else {
+                let dmax = match c0 { Some(c0) if !exact => x.iter().map(|xi| (2 * k + 2) as f64 * f64::EPSILON * c0.iter().enumerate().map(|(j, cj)| cj.abs() * xi.abs().powi(j as i32)).sum::<f64>()).fold(0.0, f64::max), _ => 0.0 };
+                for i in 0..n {
+                    let pw: f64 = (0..k).map(|j| x[i].abs().powi(j as i32)).sum();
+                    let mag: f64 = (0..k).map(|j| cd[j].abs() * x[i].abs().powi(j as i32)).sum();
+                    let horner = (2 * k + 2) as f64 * f64::EPSILON * mag + 1e-300;
+                    let pz = pred[i] / sc;
+                    if !(DD::of(pz).sub(dd_poly(&cd, x[i])).abs() <= horner) {
+                        out.push(Finding { class: "predict:not-the-polynomial".into(), what: format!("after fit, predict gave {:e} at x={:e}; the fitted c0 + c1 x + ... = {:e}", pred[i], x[i], dd_poly(&cd, x[i]).val() * sc), input: input.clone() }); break;
+                    }
+                    if c0.is_some() && sc == 1.0 {
+                        let tol = 2.0001 * rf.tol_c * pw + horner + (n as f64).sqrt() * dmax + 4.0 * f64::EPSILON * z[i].abs();
+                        if !((pz - z[i]).abs() <= tol) {
+                            out.push(Finding { class: "fit:data-not-reproduced".into(), what: format!("noiseless data of degree {}: the fitted polynomial predicts {:e} at x={:e}, the datum is {:e} (tolerance {:e}, cond(V^T V)={:e})", k - 1, pred[i], x[i], y[i], tol, rf.kappa), input: input.clone() }); break;
+                        }
+                    }
+                }
+            }
+            // (g) a refit on the same regressor equals a fit on a fresh one (no dependence on history); also through `fit`'s returned
+            //     reference, and with the number of coefficients set through the public field instead of `new`
+            if let Some(fam2) = refit {
+                let (x2, _) = abscissae2(r, fam2, n, k); let (y2, _, _) = responses(r, &x2, k, false);
+                crumb(&format!("fit({}) then refit {}", desc(k, &x2, &y2), input));
+                let again = catch(|| { let mut p = PolynomialRegressor::new(k - 1); p.fit(&x2, &y2); p.fit(x, y); p.coef.clone() });
+                s.tried += 1;
+                let same = |a: &Result<Vec<f64>, String>| match a { Ok(a) => a.len() == c.len() && a.iter().zip(c).all(|(u, v)| u.to_bits() == v.to_bits()), Err(_) => false };
+                if !same(&again) { out.push(Finding { class: "fit:history-dependent".into(), what: format!("refitting after an earlier fit gave {:?}, a fresh regressor gives {:?}", again, c), input: input.clone() }); }
+                let d0 = (k + 2) % 7;
+                crumb(&format!("new({}), coef = [7; {}], then {}", d0, k, input));
+                let field = catch(|| { let mut p = PolynomialRegressor::new(d0); p.coef = vec![7.0; k]; let q = p.fit(x, y).predict(x); (p.coef.clone(), q) });
+                s.tried += 1;
+                let same2 = match &field { Ok((a, q)) => same(&Ok(a.clone())) && q.len() == pred.len() && q.iter().zip(pred).all(|(u, v)| u.to_bits() == v.to_bits()), Err(_) => false };
+                if !same2 { out.push(Finding { class: "fit:history-dependent".into(), what: format!("a regressor whose {} coefficients were set through the public field gave {:?}, a fresh one {:?}", k, field.map(|f| f.0), c), input: input.clone() }); }
+            }
+        }
+    }
+}
+
+fn check_predict(s: &mut Search, coef: &[f64], pts: &[f64]) {
+    let (kk, m) = (coef.len(), pts.len());
+    let inp = format!("coef={} predict at {}", json_floats(coef), json_floats(pts)); crumb(&inp);
+    let g = catch(|| { let mut p = PolynomialRegressor::new(0); p.coef = coef.to_vec(); p.predict(pts) });
+    s.tried += 1;
+    match g {
+        Err(e) => s.out.push(Finding { class: "predict:panics".into(), what: format!("predict panicked: {}", e), input: inp }),
+        Ok(v) if v.len() != m => s.out.push(Finding { class: "predict:wrong-length".into(), what: format!("predict returned {} values for {} points", v.len(), m), input: inp }),
+        Ok(v) => { let cd: Vec<DD> = coef.iter().map(|c| DD::of(*c)).collect();
+            for (i, p) in pts.iter().enumerate() {
+                let want = dd_poly(&cd, *p);
+                let mag: f64 = coef.iter().enumerate().map(|(j, c)| c.abs() * p.abs().powi(j as i32)).sum();
+                if !((DD::of(v[i]).sub(want)).abs() <= (2 * kk + 2) as f64 * f64::EPSILON * mag) {
+                    s.out.push(Finding { class: "predict:not-the-polynomial".into(), what: format!("predict gave {:e} at x={:e}; c0 + c1 x + ... = {:e}", v[i], p, want.val()), input: inp.clone() }); break;
+                }
+            } }
+    }
+}
+
 pub fn oracle(tier: &str, seed: u64) -> (u64, Vec<Finding>) {
     let mut r = Rng::new(seed ^ 0xC14);
-    let mut out: Vec<Finding> = vec![]; let mut tried = 0u64;
-    let iters = if tier == "thorough" { 60000 } else { 4000 };
+    let mut s = Search { out: vec![], tried: 0, cov: Cov::default() };
+    let thorough = tier == "thorough";
+    let iters = if thorough { 60000 } else { 4000 };
     for it in 0..iters {
-        if out.len() > 40 { break; }
+        if s.out.len() > 40 { break; }
         // ---- fit on data inside the property's quantifier
         let k = 1 + (it % 7) as usize;
         let big = it % 97 == 0;
@@ -238,56 +435,7 @@ pub fn oracle(tier: &str, seed: u64) -> (u64, Vec<Finding>) {
         let (x, fname) = abscissae(&mut r, fam, n, k);
         let integer = fam >= 3 && r.coin(0.5);
         let (y, c0, scale) = responses(&mut r, &x, k, integer);
-        let input = desc(k, &x, &y);
-        crumb(&input);
-        let got = catch(|| { let mut p = PolynomialRegressor::new(k - 1); p.fit(&x, &y); p.coef.clone() });
-        tried += 1;
-        let mut distinct: Vec<u64> = x.iter().map(|v| (v + 0.0).to_bits()).collect(); distinct.sort(); distinct.dedup();
-        if distinct.len() >= k {
-            if let Some(rf) = reference(k, &x, &y) {
-                match &got {
-                    Err(e) => out.push(Finding { class: "fit:valid-input-panics".into(), what: format!("fit panicked on {} points with {} distinct abscissae ({} family, cond(V^T V) ~ {:e}): {}", n, distinct.len(), fname, rf.kappa, e), input: input.clone() }),
-                    Ok(c) if c.len() != k => out.push(Finding { class: "fit:wrong-coefficient-count".into(), what: format!("fit returned {} coefficients for degree {}", c.len(), k - 1), input: input.clone() }),
-                    Ok(c) => {
-                        let cd: Vec<DD> = c.iter().map(|v| DD::of(*v)).collect();
-                        // (a) coefficients against the double-double least-squares solution
-                        let err = (0..k).map(|j| cd[j].sub(rf.cref[j]).abs()).fold(0.0, f64::max);
-                        if !(err <= rf.tol_c) {
-                            out.push(Finding { class: "fit:coefficients-not-least-squares".into(), what: format!("fit returned {:?}; the least-squares coefficients are {:?} (max deviation {:e}, tolerance from cond(V^T V)={:e} is {:e})", c, rf.cref.iter().map(|v| v.val()).collect::<Vec<_>>(), err, rf.kappa, rf.tol_c), input: input.clone() });
-                        }
-                        // (b) the residual is orthogonal to every power of x up to the degree
-                        let res: Vec<DD> = x.iter().zip(&y).map(|(xi, yi)| DD::of(*yi).sub(dd_poly(&cd, *xi))).collect();
-                        let tol_o = rf.gnorm * rf.tol_c * 1.0001 + 1e-300;
-                        for j in 0..k {
-                            let mut s = DD::of(0.0); for (xi, ri) in x.iter().zip(&res) { s = s.add(dd_pow(*xi, j).mul(*ri)); }
-                            if !(s.abs() <= tol_o) { out.push(Finding { class: "fit:residual-not-orthogonal".into(), what: format!("sum_i x_i^{} r_i = {:e} for the fitted coefficients {:?} (tolerance {:e})", j, s.val(), c, tol_o), input: input.clone() }); break; }
-                        }
-                        // (c) no perturbation of a coefficient lowers the residual sum of squares
-                        let rss0 = dd_rss(&cd, &x, &y);
-                        'pert: for j in 0..k { for sgn in [-1.0, 1.0] {
-                            let h = sgn * 1e-3 * (1.0 + c[j].abs());
-                            let mut c2 = cd.clone(); c2[j] = c2[j].add(DD::of(h));
-                            let d = dd_rss(&c2, &x, &y).sub(rss0).val();
-                            if !(d >= -2.0 * h.abs() * tol_o - 1e-28 * rss0.abs()) { out.push(Finding { class: "fit:perturbation-lowers-rss".into(), what: format!("rss(c + {:e} e_{}) - rss(c) = {:e} < 0 for the fitted c = {:?}", h, j, d, c), input: input.clone() }); break 'pert; }
-                        }}
-                        // (d) exact-integer data generated by a polynomial of that degree are reproduced
-                        if integer && scale == 0.0 {
-                            let e0 = (0..k).map(|j| (c[j] - c0[j]).abs()).fold(0.0, f64::max);
-                            if !(e0 <= rf.tol_c) { out.push(Finding { class: "fit:polynomial-not-reproduced".into(), what: format!("data generated exactly by {:?} were fitted as {:?} (deviation {:e}, tolerance {:e})", c0, c, e0, rf.tol_c), input: input.clone() }); }
-                        }
-                        // (g) a refit on the same regressor equals a fit on a fresh one (no dependence on history)
-                        if it % 4 == 0 {
-                            let (x2, _) = abscissae(&mut r, fam + 1, n, k); let (y2, _, _) = responses(&mut r, &x2, k, false);
-                            crumb(&format!("fit({}) then refit {}", desc(k, &x2, &y2), input));
-                            let again = catch(|| { let mut p = PolynomialRegressor::new(k - 1); p.fit(&x2, &y2); p.fit(&x, &y); p.coef.clone() });
-                            tried += 1;
-                            let same = match &again { Ok(a) => a.len() == c.len() && a.iter().zip(c).all(|(u, v)| u.to_bits() == v.to_bits()), Err(_) => false };
-                            if !same { out.push(Finding { class: "fit:history-dependent".into(), what: format!("refitting after an earlier fit gave {:?}, a fresh regressor gives {:?}", again, c), input: input.clone() }); }
-                        }
-                    }
-                }
-            }
-        }
+        check_fit(&mut s, &mut r, k, &x, &y, fname, if scale == 0.0 { Some(&c0) } else { None }, integer, if it % 4 == 0 { Some(fam + 1) } else { None });
         // ---- malformed: different lengths must panic
         if it % 6 == 0 {
             let m = if r.coin(0.5) { n + 1 + r.below(3) as usize } else { n.saturating_sub(1 + r.below(2) as usize) };
@@ -295,8 +443,8 @@ pub fn oracle(tier: &str, seed: u64) -> (u64, Vec<Finding>) {
                 let y2: Vec<f64> = (0..m).map(|_| r.uniform(-1.0, 1.0)).collect();
                 let inp = desc(k, &x, &y2); crumb(&inp);
                 let g = catch(|| { let mut p = PolynomialRegressor::new(k - 1); p.fit(&x, &y2); p.coef.clone() });
-                tried += 1;
-                if let Ok(c) = g { out.push(Finding { class: "fit:length-mismatch-accepted".into(), what: format!("fit accepted {} abscissae with {} responses and returned {:?}", n, m, c), input: inp }); }
+                s.tried += 1;
+                if let Ok(c) = g { s.out.push(Finding { class: "fit:length-mismatch-accepted".into(), what: format!("fit accepted {} abscissae with {} responses and returned {:?}", n, m, c), input: inp }); }
             }
         }
         // ---- predict evaluates c0 + c1 x + ... + cd x^d at each point
@@ -304,31 +452,51 @@ pub fn oracle(tier: &str, seed: u64) -> (u64, Vec<Finding>) {
             let kk = r.below(9) as usize; let m = r.below(6) as usize;
             let coef: Vec<f64> = (0..kk).map(|_| if r.coin(0.4) { r.small_int(6) } else { r.uniform(-3.0, 3.0) }).collect();
             let pts: Vec<f64> = (0..m).map(|_| if r.coin(0.3) { r.range(-8, 8) as f64 / 4.0 } else { r.uniform(-2.0, 2.0) }).collect();
-            let inp = format!("coef={} predict at {}", json_floats(&coef), json_floats(&pts)); crumb(&inp);
-            let g = catch(|| { let mut p = PolynomialRegressor::new(0); p.coef = coef.clone(); p.predict(&pts) });
-            tried += 1;
-            match g {
-                Err(e) => out.push(Finding { class: "predict:panics".into(), what: format!("predict panicked: {}", e), input: inp }),
-                Ok(v) if v.len() != m => out.push(Finding { class: "predict:wrong-length".into(), what: format!("predict returned {} values for {} points", v.len(), m), input: inp }),
-                Ok(v) => for (i, p) in pts.iter().enumerate() {
-                    let cd: Vec<DD> = coef.iter().map(|c| DD::of(*c)).collect();
-                    let want = dd_poly(&cd, *p);
-                    let mag: f64 = coef.iter().enumerate().map(|(j, c)| c.abs() * p.abs().powi(j as i32)).sum();
-                    if !((DD::of(v[i]).sub(want)).abs() <= (2 * kk + 2) as f64 * f64::EPSILON * mag) {
-                        out.push(Finding { class: "predict:not-the-polynomial".into(), what: format!("predict gave {:e} at x={:e}; c0 + c1 x + ... = {:e}", v[i], p, want.val()), input: inp.clone() }); break;
-                    }
-                }
-            }
+            check_predict(&mut s, &coef, &pts);
         }
         // ---- a new regressor predicts zero everywhere (all coefficients zero) and has degree+1 coefficients
         if it % 50 == 0 {
             let deg = r.below(7) as usize; let pts = uniform_x(&mut r, 4);
             crumb(&format!("new({}).predict({})", deg, json_floats(&pts)));
             let g = catch(|| { let p = PolynomialRegressor::new(deg); (p.coef.len(), p.predict(&pts)) });
-            tried += 1;
+            s.tried += 1;
             match g { Ok((l, v)) if l == deg + 1 && v.iter().all(|z| *z == 0.0) && v.len() == 4 => {}
-                      other => out.push(Finding { class: "new:not-the-zero-polynomial".into(), what: format!("new({}) gave {:?}", deg, other), input: format!("deg={}", deg) }) }
+                      other => s.out.push(Finding { class: "new:not-the-zero-polynomial".into(), what: format!("new({}) gave {:?}", deg, other), input: format!("deg={}", deg) }) }
         }
     }
-    (tried, out)
+    // ---- coverage audit: the quantifier's grid, deterministically.  Every degree 0..6 x every abscissa family (the five above and
+    //      equispaced with both end points, exactly degree+1 distinct values with repeats, a sub-interval, near-duplicate abscissae,
+    //      signed zeros) x sizes from n = degree+1 (interpolation) through the band 60..200 the random stream never drew to the stated
+    //      maximum 2000 (and 1999) x every noise / response scale of SCALES.
+    let mut r = Rng::new(seed ^ 0xC14_A0D1);
+    let sizes: Vec<usize> = if thorough { vec![0, 1, 2, 3, 5, 8, 13, 21, 34, 59, 64, 80, 97, 128, 150, 199, 200, 500, 777, 1000, 1500, 1999, 2000] } else { vec![0, 1, 2, 3, 7, 20, 64, 97, 128, 150, 199, 500, 1000, 1999, 2000] };
+    let mut turn = 0usize;
+    for k in 1..=7usize { for fam in 0..NFAM { for &dn in &sizes {
+        if s.out.len() > 40 { break; }
+        let n = if dn >= 1999 { dn } else { k + dn };
+        // small problems: every scale; large ones: the scales in turn (thorough: three each)
+        let nsc = if n <= 20 { SCALES.len() } else if n < 500 { if thorough { 6 } else { 2 } } else if thorough { 3 } else { 1 };
+        for _ in 0..nsc {
+            turn += 1;
+            let (noise, e) = SCALES[turn % SCALES.len()];
+            let (x, fname) = abscissae2(&mut r, fam, n, k);
+            let grid = matches!(fam % NFAM, 3 | 4 | 9);
+            let integer = grid && noise == 0.0 && e == 0 && turn % 2 == 0;
+            let (y, c0) = responses2(&mut r, &x, k, integer, noise, e);
+            check_fit(&mut s, &mut r, k, &x, &y, fname, if noise == 0.0 { Some(&c0) } else { None }, integer, if turn % 5 == 0 { Some(fam + 1 + turn % 3) } else { None });
+        }
+    }}}
+    // ---- predict away from the fitting range and at its marked points: +-0, +-2, tiny, large (extrapolation), many points at once,
+    //      coefficients of every magnitude (the Horner bound (2k+2) eps sum |c_j| |x|^j holds wherever nothing overflows)
+    let marks = [0.0, -0.0, 2.0, -2.0, 1.0, -1.0, 1e-8, -1e-8, 1e-150, 10.0, -10.0, 1e3, -1e3, 1e6, 5e-324];
+    for it in 0..(if thorough { 4000 } else { 400 }) {
+        if s.out.len() > 40 { break; }
+        let kk = it % 10; let m = if it % 40 == 0 { 2000 } else { r.below(9) as usize };
+        let mag = *r.pick(&[1.0, 1.0, 1e-6, 1e6, 1e-100, 1e100]);
+        let coef: Vec<f64> = (0..kk).map(|_| if r.coin(0.2) { 0.0 } else { mag * r.uniform(-3.0, 3.0) }).collect();
+        let pts: Vec<f64> = (0..m).map(|_| if r.coin(0.5) { *r.pick(&marks) } else { r.uniform(-2.0, 2.0) }).collect();
+        check_predict(&mut s, &coef, &pts);
+    }
+    if std::env::var("C14_COVERAGE").is_ok() { s.cov.print(); }
+    (s.tried, s.out)
 }
